@@ -27,6 +27,9 @@ pub fn name_pools() -> Vec<(Vec<&'static str>, Vec<&'static str>)> {
         // numbered siblings of names that have to be numbered themselves
         (vec!["option", "option1", "Option", "Option1", "vec", "Vec1", "self", "Self1"], vec!["k", "k1", "k_1"]),
         (vec!["row", "value", "Value", "RowValue1", "row_value", "RowValue"], vec!["id", "id1", "id_attr"]),
+        // a separator inside a name against the same string split over two nesting levels
+        (vec!["system.web", "system", "web", "a.b", "a", "b"], vec!["k", "a.b"]),
+        (vec!["a-b", "a", "b", "a_b", "a:b", "ab"], vec!["a-b", "a:b"]),
     ]
 }
 
@@ -190,7 +193,7 @@ pub fn run_docprop(ctx: &mut Ctx, p: DocProp) {
     ctx.meta.push(("evaluations", J::N(evaluations)));
     ctx.meta.push(("distinct_nontrivial", J::N(distinct.len() as i64)));
     ctx.meta.push(("rule", json::s(format!(
-        "documents as DOM trees serialised with random incidental detail: {}{} random sequences of 1-{} documents with a common root (16 fixed name pools and, for a third of the cases, a pool of random names incl. keywords, case/separator variants, prefixed, non-ASCII, concatenation traps; depth<=5, fan-out<=6); {}; non-trivial = at least 3 nodes, distinct by DOM sequence",
+        "documents as DOM trees serialised with random incidental detail: {}{} random sequences of 1-{} documents with a common root (18 fixed name pools and, for a third of the cases, a pool of random names incl. keywords, case/separator variants, prefixed, non-ASCII, concatenation traps; depth<=5, fan-out<=6); {}; non-trivial = at least 3 nodes, distinct by DOM sequence",
         exh_note, n_rand, p.max_docs, p.what))));
     ctx.meta.push(("histogram", hist.json()));
     ctx.meta.push(("samples", J::A(samples)));
@@ -254,7 +257,7 @@ pub fn c01(ctx: &mut Ctx) {
 pub fn c04(ctx: &mut Ctx) {
     let mut evals = vec![ev("bytes", "ev_bytes", "corr"), ev("wf", "or_wf", "oracle"), ev("reflects", "or_reflects", "oracle"), ev("hyp", "in_hyp_names", "hyp")];
     evals.insert(0, ev("tree", "ev_tree", "corr"));
-    run_docprop(ctx, DocProp { evals, opts: opts_presets, exhaustive: false, n_rand: (2500, 60000), pools: vec![3, 4, 5, 6, 7, 8, 9, 10, 11, 12, 14, 15], tweak: no_tweak, extra: None, max_docs: 3, with_chars: true, what: "adversarial name pools only; both presets x both sort options" });
+    run_docprop(ctx, DocProp { evals, opts: opts_presets, exhaustive: false, n_rand: (2500, 60000), pools: vec![3, 4, 5, 6, 7, 8, 9, 10, 11, 12, 14, 15, 16, 17], tweak: no_tweak, extra: None, max_docs: 3, with_chars: true, what: "adversarial name pools only; both presets x both sort options" });
 }
 pub fn c09(ctx: &mut Ctx) {
     let mut evals = corr_core();
